@@ -144,6 +144,14 @@ M = [
      "    if (!op_.doneOrError_.exchange(true, std::memory_order_relaxed)) {\n      op_.error_.emplace(",
      "    if (!op_.doneOrError_.exchange(true, std::memory_order_relaxed) || !op_.error_.has_value()) {\n      op_.error_.emplace(",
      "when_all_range: a later error overrides an earlier done"),
+    ("m63", "C01", "include/unifex/sync_wait.hpp",
+     "    void set_done() && noexcept {\n      promise_.state_ = promise<T>::state::done;\n      signal_complete();",
+     "    void set_done() && noexcept {\n      promise_.state_ = promise<T>::state::done;",
+     "sync_wait: done never wakes the waiting thread"),
+    ("m64", "C05", "include/unifex/sync_wait.hpp",
+     "    case promise_t::state::done: return std::nullopt;\n    case promise_t::state::value: return std::move(promise.value_).get();",
+     "    case promise_t::state::done: return std::nullopt;\n    case promise_t::state::value: { auto& v = promise.value_.get(); std::optional<Result> r{std::move(v)}; return std::optional<Result>{std::move(v)}; }",
+     "sync_wait: returns a value that was already moved from"),
 ]
 
 
